@@ -16,6 +16,7 @@ TRANSFORMS = [
     "return type `-> T` rewritten to `-> (name: T)` when the contract names the result",
     "function renamed only when the template asks for it with `as <name>` (used to place two cfg arms side by side)",
     "`debug_assert!(e);` -> `assert(e);` (same obligation, Verus spelling) when option debug_assert=verus is given",
+    "anonymous loop pattern: `for _ in <range>` -> `for vloop<k> in <range>` (k-th such loop of the function) so that a loop invariant can name the counter",
 ]
 
 # ---------------------------------------------------------------- tokenizer
@@ -463,6 +464,11 @@ def normalise_fn(fn_src, cfg, rename=None, ret_name=None, debug_assert_verus=Tru
         s = s[:ty_s] + "(" + ret_name + ": " + s[ty_s:ty_e] + ")" + s[ty_e:]
     if debug_assert_verus:
         s = re.sub(r'\bdebug_assert!\(', 'assert(', s)
+    cnt = [0]
+    def _nm(m):
+        cnt[0] += 1
+        return "for vloop%d in" % (cnt[0] - 1)
+    s = re.sub(r'\bfor\s+_\s+in\b', _nm, s)
     return s, orig_name
 
 
@@ -502,6 +508,11 @@ def source_tokens(fn_src, cfg, rename=None, ret_name=None, debug_assert_verus=Tr
         toks = toks[:arrow + 1] + ['(', ret_name, ':'] + toks[arrow + 1:k] + [')'] + toks[k:]
     if debug_assert_verus:
         toks = ['assert' if t == 'debug_assert!' else t for t in toks]
+    k = 0
+    for i in range(len(toks) - 2):
+        if toks[i] == 'for' and toks[i + 1] == '_' and toks[i + 2] == 'in':
+            toks[i + 1] = 'vloop%d' % k
+            k += 1
     return toks
 
 
